@@ -484,14 +484,14 @@ Qed.
 (* two filters of different signals on one byte never share a payload bit (layout of one byte
    order without the D08 shape) *)
 Theorem masks_disjoint size be l a b f g :
-  wf size l -> uniform be l -> Forall (fun s => d08 s = false) l ->
+  wf size l -> uniform be l -> d08 a = false -> d08 b = false ->
   In a l -> In b l -> s_id a <> s_id b ->
   In f (sig_filters a) -> In g (sig_filters b) -> f_byte f = f_byte g ->
   Z.land (f_mask f) (f_mask g) = 0.
 Proof.
-  intros Hwf Hu Hd Ha Hb Hne Hf Hg Hbyte.
+  intros Hwf Hu Hda Hdb Ha Hb Hne Hf Hg Hbyte.
   pose proof (wf_pairwise size l a b Hwf Ha Hb Hne) as Hdis.
-  destruct Hwf as [Hall _]. unfold uniform in Hu. rewrite Forall_forall in Hall, Hu, Hd.
+  destruct Hwf as [Hall _]. unfold uniform in Hu. rewrite Forall_forall in Hall, Hu.
   pose proof (Hall a Ha) as Oa. pose proof (Hall b Hb) as Ob.
   destruct (sig_filters_shape size a Oa) as [Ga [Ta _]]. destruct (sig_filters_shape size b Ob) as [Gb [Tb _]].
   rewrite Forall_forall in Ga, Gb. pose proof (Ga f Hf) as Gf. pose proof (Gb g Hg) as Gg.
@@ -501,14 +501,112 @@ Proof.
   destruct ((f_off g <=? k) && (k <? f_off g + f_len g)) eqn:Bg; [|reflexivity].
   exfalso. unfold s_end in Hdis.
   destruct be.
-  - destruct (sig_filters_be size a Oa (Hu a Ha) (Hd a Ha)) as [Ca _].
-    destruct (sig_filters_be size b Ob (Hu b Hb) (Hd b Hb)) as [Cb _].
+  - destruct (sig_filters_be size a Oa (Hu a Ha) Hda) as [Ca _].
+    destruct (sig_filters_be size b Ob (Hu b Hb) Hdb) as [Cb _].
     pose proof (be_chain_range _ _ f Ca Hf) as Rf. pose proof (be_chain_range _ _ g Cb Hg) as Rg.
     rewrite Ta in Rf. rewrite Tb in Rg. lia.
   - destruct (sig_filters_le size a Oa (Hu a Ha)) as [Ca _].
     destruct (sig_filters_le size b Ob (Hu b Hb)) as [Cb _].
     pose proof (le_chain_range _ _ f Ca Hf) as Rf. pose proof (le_chain_range _ _ g Cb Hg) as Rg.
     rewrite Ta in Rf. rewrite Tb in Rg. lia.
+Qed.
+
+(* ------------------------------------------------------------------ the D08 zone, specified *)
+(* what the code does for a big-endian signal that fits in one byte (the single-byte branch does
+   not look at the byte order): it reads the signal exactly as a little-endian signal at the same
+   start, i.e. with the LSB-anchored offset start%8 *)
+Lemma part_lt data f : bytes_ok data -> good f -> 0 <= part data f < 2 ^ f_len f.
+Proof.
+  intros Hd G. pose proof (part_nonneg data f Hd G) as NN. split; [exact NN|].
+  pose proof G as [_ [_ [Hl _]]].
+  destruct (Z_lt_le_dec (part data f) (2 ^ f_len f)) as [L|L]; [exact L|exfalso].
+  assert (Pos : 0 < part data f) by (pose proof (Z.pow_pos_nonneg 2 (f_len f)); lia).
+  pose proof (Z.bit_log2 (part data f) Pos) as B.
+  assert (LG : f_len f <= Z.log2 (part data f)) by (apply Z.log2_le_pow2; lia).
+  rewrite (part_bits data f _ G) in B by lia.
+  replace (Z.log2 (part data f) <? f_len f) with false in B by lia. discriminate.
+Qed.
+
+Lemma be_acc_single data f : be_acc data [f] 0 = part data f.
+Proof.
+  cbn [be_acc]. rewrite Z.shiftl_0_l. unfold wrap64. rewrite Z.mod_0_l by (apply Z.pow_nonzero; lia).
+  apply Z.lor_0_l.
+Qed.
+
+Lemma le_acc_single data f : bytes_ok data -> good f -> le_acc data [f] 0 0 = part data f.
+Proof.
+  intros Hd G. cbn [le_acc]. rewrite Z.lor_0_l, Z.shiftl_0_r. unfold wrap64. apply Z.mod_small.
+  pose proof (part_lt data f Hd G) as P. pose proof G as [_ [Ho [Hl [Hol _]]]].
+  split; [lia|]. apply Z.lt_le_trans with (2 ^ f_len f); [lia|]. apply Z.pow_le_mono_r; lia.
+Qed.
+
+Theorem decode_be_one_byte_spec size s data :
+  sig_ok size s -> s_be s = true -> one_byte s = true -> bytes_ok data ->
+  sig_raw s data = raw_le (s_start s) (s_size s) data.
+Proof.
+  intros Hok Hbe H1 Hd.
+  set (s' := mkSig (s_id s) (s_start s) (s_size s) false (s_kind s)).
+  assert (Hok' : sig_ok size s') by exact Hok.
+  change (raw_le (s_start s) (s_size s) data) with (raw_le (s_start s') (s_size s') data).
+  rewrite <- (decode_le_spec size s' data Hok' eq_refl Hd).
+  assert (E : s_start s / 8 = (s_start s + s_size s - 1) / 8).
+  { unfold one_byte in H1. destruct (Z.eqb_spec (s_start s / 8) ((s_start s + s_size s - 1) / 8)); [assumption|discriminate]. }
+  destruct (single_filter size s Hok E) as [F T8]. destruct (single_filter size s' Hok' E) as [F' _].
+  unfold sig_raw. rewrite Hbe, F. cbn [s_be s']. rewrite F'. cbn [s_id s_start s_size s'].
+  rewrite be_acc_single. rewrite le_acc_single; [reflexivity | exact Hd |].
+  destruct Hok as [H0 [[Hs1 Hs2] H3]]. pose proof (mod8_bound (s_start s)) as TB.
+  unfold good. cbn [f_byte f_off f_len f_mask]. repeat split; try lia. apply Z.div_pos; lia.
+Qed.
+
+Lemma byte_at_repeat b x : byte_at (repeat 0 b ++ [x]) (Z.of_nat b) = x.
+Proof.
+  unfold byte_at. rewrite Nat2Z.id. rewrite app_nth2 by (rewrite repeat_length; lia).
+  rewrite repeat_length. replace (b - b)%nat with O by lia. reflexivity.
+Qed.
+
+(* every excluded shape really is wrong: for each big-endian one-byte asymmetric placement there
+   is a payload on which the decoded value differs from the payload bits of the Motorola reading *)
+Theorem decode_be_one_byte_refuted_all size s :
+  sig_ok size s -> d08 s = true ->
+  exists data, bytes_ok data /\ s_end s <= nbits data /\
+               sig_raw s data <> raw_be (s_start s) (s_size s) data.
+Proof.
+  intros Hok Hd. unfold d08 in Hd. apply andb_prop in Hd. destruct Hd as [Hd Hasym].
+  apply andb_prop in Hd. destruct Hd as [Hbe H1].
+  pose proof Hok as [H0 [[Hs1 Hs2] H3]].
+  set (t := s_start s mod 8). set (b := s_start s / 8).
+  pose proof (mod8_bound (s_start s)) as TB. fold t in TB. pose proof (div8_eq (s_start s)) as SE. fold t b in SE.
+  assert (Hb : 0 <= b) by (apply Z.div_pos; lia).
+  assert (E : b = (s_start s + s_size s - 1) / 8).
+  { unfold one_byte in H1. destruct (Z.eqb_spec (s_start s / 8) ((s_start s + s_size s - 1) / 8)); [assumption|discriminate]. }
+  assert (T8 : t + s_size s <= 8).
+  { pose proof (div8_eq (s_start s + s_size s - 1)) as E2. pose proof (mod8_bound (s_start s + s_size s - 1)). rewrite <- E in E2. lia. }
+  assert (Asym : 2 * t + s_size s <> 8).
+  { unfold asymmetric in Hasym. fold t in Hasym. destruct (Z.eqb_spec (2 * t + s_size s) 8); [discriminate | assumption]. }
+  set (data := repeat 0 (Z.to_nat b) ++ [2 ^ t]).
+  assert (Hlen : nbits data = 8 * (b + 1)).
+  { unfold nbits, data. rewrite app_length, repeat_length. cbn [length]. lia. }
+  assert (Hbytes : bytes_ok data).
+  { unfold bytes_ok, data. apply Forall_app. split.
+    - apply Forall_forall. intros x Hx. apply repeat_spec in Hx. subst x. lia.
+    - constructor; [|constructor]. split; [apply Z.pow_nonneg; lia|].
+      change 256 with (2 ^ 8). apply Z.pow_lt_mono_r; lia. }
+  assert (Hbyte : byte_at data b = 2 ^ t).
+  { unfold data. rewrite <- (Z2Nat.id b) at 2 by exact Hb. apply byte_at_repeat. }
+  exists data. split; [exact Hbytes|]. split; [unfold s_end; lia|].
+  rewrite (decode_be_one_byte_spec size s data Hok Hbe H1 Hbytes).
+  intros Heq.
+  (* bit 0: set in the LSB-anchored reading, clear in the Motorola reading *)
+  assert (B0 : Z.testbit (raw_le (s_start s) (s_size s) data) 0 = true).
+  { rewrite raw_le_bits by (try assumption; lia). replace (0 <? s_size s) with true by lia. cbn [andb].
+    unfold payload_bit. replace (s_start s + 0) with (s_start s) by lia. fold b t. rewrite Hbyte.
+    apply Z.pow2_bits_true. lia. }
+  assert (B1 : Z.testbit (raw_be (s_start s) (s_size s) data) 0 = false).
+  { rewrite raw_be_bits by (try assumption; lia). replace (0 <? s_size s) with true by lia. cbn [andb].
+    unfold mbit.
+    destruct (divmod8 (s_start s + s_size s - 1 - 0) b (t + s_size s - 1) ltac:(lia) ltac:(lia)) as [D M].
+    rewrite D, M, Hbyte. apply Z.pow2_bits_false. lia. }
+  rewrite Heq in B0. congruence.
 Qed.
 
 (* ------------------------------------------------------------------ the D08 shape, refuted *)
